@@ -381,4 +381,98 @@ def renderVal (maxDigits : Nat) : PyVal → Rendered
   | .float t _ => .text t
   | .other id _ => .opaque id
 
+/-! ### histories: several tags made under one builder, lists changed in place
+
+In Python the value of a multi-valued attribute is a *mutable* list object. The documented meaning is that every
+attribute owns its list: the builder creates a fresh `attribute_value_list_class(...)` for each attribute it splits
+(builder/__init__.py:429-431) and `Tag.__init__` copies lists (`v.__class__(v)`, element.py:1686-1688). The model states
+this as a store without sharing: the state is the list of tags made so far, each with its own `Items`. -/
+
+/-- in-place operations on a list value (`tag["class"].append("x")`, …) -/
+inductive ListOp where
+  | append (t : PStr)
+  | remove (t : PStr)        -- first occurrence (absent: the harness does not generate it; Python raises ValueError)
+  | clear
+  | sort
+  | iadd (l : List PStr)     -- `+=` / extend
+  | reverse
+  | pop                      -- last element
+  | insert0 (t : PStr)
+deriving DecidableEq, Repr
+
+/-- `a <= b` for Python str comparison (by code point) -/
+def lexLe : PStr → PStr → Bool
+  | [], _ => true
+  | _ :: _, [] => false
+  | a :: as, b :: bs => if a < b then true else if b < a then false else lexLe as bs
+
+def insertSorted (x : PStr) : List PStr → List PStr
+  | [] => [x]
+  | y :: ys => if lexLe x y then x :: y :: ys else y :: insertSorted x ys
+
+def sortStrs : List PStr → List PStr
+  | [] => []
+  | x :: xs => insertSorted x (sortStrs xs)
+
+def applyListOp : ListOp → List PStr → List PStr
+  | .append t, l => l ++ [t]
+  | .remove t, l => l.erase t
+  | .clear, _ => []
+  | .sort, l => sortStrs l
+  | .iadd m, l => l ++ m
+  | .reverse, l => l.reverse
+  | .pop, l => l.dropLast
+  | .insert0 t, l => t :: l
+
+/-- the change reaches the dictionary without going through `__setitem__` -/
+def mutateValue (op : ListOp) : PyVal → PyVal
+  | .list c l => .list c (applyListOp op l)
+  | v => v
+
+def mutateTag (t : TagAttrs) (k : PStr) (op : ListOp) : TagAttrs :=
+  match dictGet t.items k with
+  | some v => { t with items := dictSet t.items k (mutateValue op v) }
+  | Option.none => t
+
+def modifyAt {α : Type} : List α → Nat → (α → α) → List α
+  | [], _, _ => []
+  | a :: l, 0, f => f a :: l
+  | a :: l, i + 1, f => a :: modifyAt l i f
+
+inductive Step where
+  | parse (name : PStr) (attrs : List (PStr × Option PStr))   -- a start tag of a document fed to the builder
+  | newTag (name : PStr) (items : Items)                       -- soup.new_tag(name, attrs=items)
+  | copy (i : Nat)                                             -- copy.copy(tag i)
+  | mutate (i : Nat) (k : PStr) (op : ListOp)                  -- tag_i[k].<op>(…)
+  | set (i : Nat) (k : Key) (v : PyVal)                        -- tag_i[k] = v
+
+/-- the tags made so far (name, attributes), oldest first -/
+abbrev Hist := List (PStr × TagAttrs)
+
+def histStep (maxDigits : Nat) (lower : PStr → PStr) (b : BuilderCfg) (st : Hist) : Step → Res Hist
+  | .parse name attrs =>
+    (parseStartTag maxDigits lower b .replace name attrs).bind fun t => .ok (st ++ [(name, t)])
+  | .newTag name items =>
+    (tagInit maxDigits lower (some b) false name (some (b.dictCls, items))).bind fun t => .ok (st ++ [(name, t)])
+  | .copy i =>
+    match st[i]? with
+    | some (n, t) =>
+      (tagInit maxDigits lower Option.none false n (some (t.cls, t.items))).bind fun t' => .ok (st ++ [(n, t')])
+    | Option.none => .ok st
+  | .mutate i k op => .ok (modifyAt st i (fun p => (p.1, mutateTag p.2 k op)))
+  | .set i k v =>
+    match st[i]? with
+    | some (_, t) => (tagSet maxDigits t k v).bind fun t' => .ok (modifyAt st i (fun p => (p.1, t')))
+    | Option.none => .ok st
+
+def runHist (maxDigits : Nat) (lower : PStr → PStr) (b : BuilderCfg) : Hist → List Step → Res Hist
+  | st, [] => .ok st
+  | st, s :: rest => (histStep maxDigits lower b st s).bind fun st' => runHist maxDigits lower b st' rest
+
+/-- the value of attribute `k` of tag `j` -/
+def attrAt (st : Hist) (j : Nat) (k : PStr) : Option PyVal :=
+  match st[j]? with
+  | some p => dictGet p.2.items k
+  | Option.none => Option.none
+
 end BS.Attrs
